@@ -5,6 +5,7 @@ import (
 	"fmt"
 	"net"
 	"os"
+	"sync"
 	"testing"
 	"time"
 
@@ -270,6 +271,82 @@ func TestErrorsReal(t *testing.T) {
 				case <-time.After(3 * time.Second):
 					e.r.Emit("ecall", "obj", "q", "op", "redial-"+how, "r", "no attempt", "hung", true, "want", ok)
 				}
+			}
+		})
+	}
+	// --- a connection lost while the dialer's own call is still inside the pipe event hook (the hook closes the
+	// pipe in Attaching, or the peer drops it during Attached, and the hook takes longer than the reconnect time):
+	// the dialer still comes back
+	for _, how := range []string{"attaching", "attached"} {
+		run("hook-dwell-"+how, func(e *errScn) {
+			srv, _ := rep.NewSocket()
+			defer srv.Close()
+			var smu sync.Mutex
+			var spipes []mangos.Pipe
+			srv.SetPipeEventHook(func(ev mangos.PipeEvent, p mangos.Pipe) {
+				if ev == mangos.PipeEventAttached {
+					smu.Lock()
+					spipes = append(spipes, p)
+					smu.Unlock()
+				}
+			})
+			l, err := srv.NewListener("tcp://127.0.0.1:0", nil)
+			if err != nil {
+				panic(err)
+			}
+			e.call("l", "listen", ok, l.Listen)
+			q, _ := req.NewSocket()
+			defer q.Close()
+			_ = q.SetOption(mangos.OptionReconnectTime, 10*time.Millisecond)
+			_ = q.SetOption(mangos.OptionMaxReconnectTime, 20*time.Millisecond)
+			_ = q.SetOption(mangos.OptionDialAsynch, true)
+			var mu sync.Mutex
+			first := true
+			later := 0 // connections Attached after the one the hook dwelt on
+			q.SetPipeEventHook(func(ev mangos.PipeEvent, p mangos.Pipe) {
+				mu.Lock()
+				mine := first && ((how == "attaching" && ev == mangos.PipeEventAttaching) || (how == "attached" && ev == mangos.PipeEventAttached))
+				if mine {
+					first = false
+				} else if ev == mangos.PipeEventAttached {
+					later++
+				}
+				mu.Unlock()
+				if !mine {
+					return
+				}
+				if how == "attaching" {
+					_ = p.Close()
+				} else {
+					for w := 0; w < 100; w++ { // the peer drops the connection
+						smu.Lock()
+						n := len(spipes)
+						for _, sp := range spipes {
+							_ = sp.Close()
+						}
+						smu.Unlock()
+						if n > 0 {
+							break
+						}
+						time.Sleep(5 * time.Millisecond)
+					}
+				}
+				time.Sleep(200 * time.Millisecond) // several reconnect intervals
+			})
+			e.call("q", "dial", ok, func() error { return q.Dial(l.Address()) })
+			back := false
+			for w := 0; w < 400 && !back; w++ {
+				mu.Lock()
+				back = later > 0
+				mu.Unlock()
+				if !back {
+					time.Sleep(10 * time.Millisecond)
+				}
+			}
+			if back {
+				e.r.Emit("ecall", "obj", "q", "op", "redial-after-hook-dwell-"+how, "r", "ok", "hung", false, "want", ok)
+			} else {
+				e.r.Emit("ecall", "obj", "q", "op", "redial-after-hook-dwell-"+how, "r", "no connection in 4 s", "hung", true, "want", ok)
 			}
 		})
 	}
